@@ -2289,9 +2289,9 @@ KERNELS = [
     ("KIntoFloat", "src/into_float.rs", "n_signif_bits", None),
     ("KIntoFloat", "src/into_float.rs", "from_decimal", "u64",
      {"as": "f32_from_decimal", "ret": "u64",
-      "self_consts": {"FRACTION_BITS": ("u32", 23), "EXP_BIAS": ("i32", 127), "BITS": ("u32", 32), "__from_bits_width__": ("u32", 32)}}),
+      "self_consts": "float:f32"}),
     ("KIntoFloat", "src/into_float.rs", "from_decimal", "u64",
-     {"as": "f64_from_decimal", "ret": "u64", "self_consts": {"FRACTION_BITS": ("u32", 52), "EXP_BIAS": ("i32", 1023), "BITS": ("u32", 64)}}),
+     {"as": "f64_from_decimal", "ret": "u64", "self_consts": "float:f64"}),
     ("KParse", "fpdec-core/src/parser.rs", "new", "AsciiDecLit", {"as": "lit_new"}),
     ("KParse", "fpdec-core/src/parser.rs", "is_empty", "AsciiDecLit", {"as": "lit_is_empty"}),
     ("KParse", "fpdec-core/src/parser.rs", "len", "AsciiDecLit", {"as": "lit_len"}),
@@ -2466,6 +2466,37 @@ TRAIT_CALLS = {
 ERR_TYPE = ["DecimalError"]      # what `Self::Error` stands for in the function being parsed
 
 
+STD_FLOAT_CONSTS = {"f64": {"MANTISSA_DIGITS": 53, "MAX_EXP": 1024, "BITS": 64}, "f32": {"MANTISSA_DIGITS": 24, "MAX_EXP": 128, "BITS": 32}}
+
+
+def float_self_consts(src, ty):
+    """the associated constants of `impl Float for <ty>` (src/into_float.rs), evaluated from the source text with std's values of
+    `MANTISSA_DIGITS` / `MAX_EXP`, and the width `from_bits` truncates the pattern to (`bits as u32` for f32)"""
+    src = re.sub(r"//[^\n]*", "", src)
+    m = re.search(r"impl Float for " + ty + r" \{(.*?)\n\}", src, re.S)
+    if not m:
+        raise KeyError("impl Float for " + ty)
+    body = m.group(1)
+    out = {"BITS": ("u32", STD_FLOAT_CONSTS[ty]["BITS"])}
+    for name, cty, expr in re.findall(r"const (\w+): (\w+) = ([^;]+);", body):
+        mm = re.fullmatch(r"\s*Self::(\w+)\s*(?:([+-])\s*(\d+))?\s*", expr)
+        if not mm or mm.group(1) not in STD_FLOAT_CONSTS[ty]:
+            raise SyntaxError(f"constant expression of {ty}::{name}: {expr.strip()}")
+        v = STD_FLOAT_CONSTS[ty][mm.group(1)]
+        if mm.group(2):
+            v = v + int(mm.group(3)) if mm.group(2) == "+" else v - int(mm.group(3))
+        out[name] = (cty, v)
+    fb = re.search(r"fn from_bits\(bits: u64\) -> Self \{\s*Self::from_bits\(bits(?: as (u\d+))?\)\s*\}", body)
+    if not fb:
+        raise SyntaxError(f"from_bits of {ty}")
+    if fb.group(1):
+        out["__from_bits_width__"] = ("u32", int(fb.group(1)[1:]))
+    for need in ("FRACTION_BITS", "EXP_BIAS"):
+        if need not in out:
+            raise KeyError(f"{ty}::{need}")
+    return out
+
+
 def translate(repo):
     """returns {group: lean text}"""
     repo = Path(repo)
@@ -2549,7 +2580,10 @@ def translate(repo):
                         kfin = (lambda i, mp=mp: "  " * i + "pure ((" + ", ".join(mp) + "))\n")
                 vis = {k: v for k, v in sigs.items() if k not in CALL_SCOPE or g in CALL_SCOPE[k]}
                 em = Emit(name, params, eff_ret, vis, {**GLOBAL_CONSTS["*"], **GLOBAL_CONSTS.get(f, {})}, selfty)
-                em.self_consts = opts.get("self_consts", {})
+                sc = opts.get("self_consts", {})
+                if isinstance(sc, str) and sc.startswith("float:"):
+                    sc = float_self_consts(srcs[f], sc[6:])
+                em.self_consts = sc
                 em.method_override = opts.get("methods", {})
                 em.decl_ret = ret
                 if kfin is not None and body[2] is not None and body[2][0] in ("path", "method", "call"):
